@@ -80,6 +80,7 @@ M = [
     ("c15_callback_async", "C15", "client/client.go", "\tif publish.Message.QOS <= 1 || c.earlyCallback {\n\t\tif c.Callback != nil {\n\t\t\terr := c.Callback(&publish.Message, nil)", "\tif publish.Message.QOS <= 1 || c.earlyCallback {\n\t\tif c.Callback != nil && publish.Message.QOS == 0 {\n\t\t\tgo c.Callback(&publish.Message, nil)\n\t\t} else if c.Callback != nil {\n\t\t\terr := c.Callback(&publish.Message, nil)"),
     ("c15_overwrite_keeps_slot", "C15", "session/packet_store.go", "\t\ts.counter++\n\t\ts.order[id] = s.counter\n", "\t\tif _, ok := s.order[id]; !ok {\n\t\t\ts.counter++\n\t\t\ts.order[id] = s.counter\n\t\t}\n"),
     ("c15_service_publish_async", "C15", "client/service.go", "\t\t\t\tf2, err := client.PublishMessage(cmd.message)\n", "\t\t\t\tif cmd.message.QOS == 0 {\n\t\t\t\t\tgo client.PublishMessage(cmd.message)\n\t\t\t\t\tcmd.future.Complete(nil)\n\t\t\t\t\tcontinue\n\t\t\t\t}\n\t\t\t\tf2, err := client.PublishMessage(cmd.message)\n"),
+    ("c09_await_negative_timeout", "C09", "client/future/store.go", "\t\tremaining := deadline.Sub(time.Now())\n\t\tif remaining <= 0 {\n\t\t\treturn ErrTimeout\n\t\t}\n", "\t\tremaining := deadline.Sub(time.Now())\n"),
     # ---- C10
     ("c10_ignore_unknown_pubrel", "C10", "client/client.go", "\t\t// ignore a wrongly sent Pubrel packet if not connected\n\t\tif atomic.LoadUint32(&c.state) != clientConnected {\n\t\t\treturn nil\n\t\t}\n", "\t\t// ignore a wrongly sent Pubrel packet if not connected\n\t\tif atomic.LoadUint32(&c.state) <= clientDisconnected {\n\t\t\treturn nil\n\t\t}\n"),
     ("c10_delete_after_pubcomp", "C10", "client/client.go", "\terr = c.Session.DeletePacket(session.Incoming, id)\n\tif err != nil {\n\t\treturn c.die(err, true)\n\t}\n\n\t// prepare pubcomp packet\n\tpubcomp := packet.NewPubcomp()\n\tpubcomp.ID = publish.ID\n\n\t// acknowledge Publish packet\n\terr = c.send(pubcomp, true)\n\tif err != nil {\n\t\treturn c.die(err, false)\n\t}\n", "\t// prepare pubcomp packet\n\tpubcomp := packet.NewPubcomp()\n\tpubcomp.ID = publish.ID\n\n\t// acknowledge Publish packet\n\terr = c.send(pubcomp, true)\n\tif err != nil {\n\t\treturn c.die(err, false)\n\t}\n\n\terr = c.Session.DeletePacket(session.Incoming, id)\n\tif err != nil {\n\t\treturn c.die(err, true)\n\t}\n"),
